@@ -47,11 +47,12 @@ PRecord = collections.namedtuple("PRecord", "case step op args state nets mine f
 # the object with its history; fresh: outcome on a circuit built from scratch with that public state
 
 
-def run_placement_sequences(seed, count, extra_cases=()):
+def run_placement_sequences(seed, count, extra_cases=(), gen="p"):
     """SP cases: legalize / placeDetailed called on ONE Circuit between public edits, and on a fresh circuit holding the same public
-    state.  returns (precords, anomalies, stats); anomalies = [(case, text)] for steps that threw / crashed"""
+    state.  gen: generator of harness/circseq.cpp, "p" (general, C01) or "r" (legal row-high placements kept legal by the edits, C11).
+    returns (precords, anomalies, stats); anomalies = [(case, text)] for steps that threw / crashed"""
     harness = common.build_harness("circseq")
-    cases = list(extra_cases) + (common.harness_gen(harness, ["p", seed, count]) if count > 0 else [])
+    cases = list(extra_cases) + (common.harness_gen(harness, [gen, seed, count]) if count > 0 else [])
     impl, _, _ = common.run_both([harness, "run"], None, cases, chunk=300)
     precs, anomalies = [], []
     stats = {"sequences": len(cases), "steps": 0, "other_queries": 0, "legalize_calls": 0, "placeDetailed_calls": 0}
@@ -97,7 +98,8 @@ def steps_text(case, upto=None):
     names = {1: "setCellX", 2: "setCellY", 3: "setCellWidth", 4: "setCellHeight", 5: "setCellOrientation", 6: "setCellIsFixed",
              7: "setCellIsObstruction", 8: "setSolution", 9: "setRows(edit row)", 10: "setRows(drop/add row)", 11: "setupRows",
              12: "addNet", 13: "setNets(keep first a)", 14: "(no edit)", 15: "circuit = copy of itself",
-             16: "legalize(effort a; b=1: ordering c/10 d/10 e/10)", 17: "placeDetailed(effort a; reorderingMaxNbCells b, reorderingNbRows c if > 0)"}
+             16: "legalize(effort a; b=1: ordering c/10 d/10 e/10)", 17: "placeDetailed(effort a; reorderingMaxNbCells b, reorderingNbRows c if > 0)",
+             18: "setSolution(cell a at x=b y=c, cell d at x=e y=f, orientations kept)"}
     v = case.split()
     ns = _nsteps(case)
     tail = v[len(v) - 8 * ns:]
